@@ -24,6 +24,14 @@ fn main() {
             input["eqfree"].as_bool().unwrap_or(false),
             input["canonfree"].as_bool().unwrap_or(false),
         ),
+        Some("xrecord") => observe_xrecord(
+            &input["a"],
+            &input["b"],
+            input["rep"].as_str().unwrap_or(""),
+            input["xans"].as_i64().unwrap_or(0),
+            input["eqfree"].as_bool().unwrap_or(false),
+            input["canonfree"].as_bool().unwrap_or(false),
+        ),
         Some("carrier") => observe_carrier(&input["c"]),
         Some("rcarrier") => observe_rel_carrier(&input["c"]),
         Some("cpair") => observe_carrier_pair(&input["a"], &input["b"]),
